@@ -405,7 +405,7 @@ def gen_plan(seed, tier):
   # unknown=True: refits of supervised learners alternate between the full
   # and the partially unknown label vector on the same points
   return gen_history(seed, tier, fresh_p=0.004 if tier == "thorough" else 0.003,
-                     weights=dict(fault=3, interrupt=6, mutate_store=4), unknown=True, wide_p=0.03, crash_sweep_p=0.08, buffer_p=0.35, view_p=0.3)
+                     weights=dict(fault=3, interrupt=6, mutate_store=4), unknown=True, wide_p=0.03, crash_sweep_p=0.08, buffer_p=0.35, view_p=0.3, int_dtype_p=0.08, one_class_p=0.06)
 
 
 def run_plan(plan):
